@@ -242,6 +242,10 @@ def _pool(tier):
     pool.append(("harness.c03", "h_gaussian_log", dict(nbasis=6)))
     for fmt, var in (("fchk", "post"), ("wfx", "full"), ("molden", "ecp"), ("molekel", "uhf"), ("json", "full")):
         pool.append(("harness.rt", "h_roundtrip", dict(fmt=fmt, natom=2, variant=var, prop="C02")))
+    # failing and succeeding loads of every reader (fixture cut at any of its first 30 line boundaries)
+    from harness import c07
+    for fmt, fn, many in c07.FIXTURES:
+        pool.append(("harness.c07", "h_parser", dict(fmt=fmt, fn=fn, many=many, fault="truncate", max_lines=30)))
     pool.append(("harness.c08", "h_required", dict(fmt="xyz")))
     pool.append(("harness.c08", "h_rejection", dict(fmt="wfn")))
     pool.append(("harness.c08", "h_misc", {}))
